@@ -178,20 +178,19 @@ def classify(case: dict, res: dict) -> list[tuple[str | None, str, dict]]:
         probs.append(("foreign", f, "imports a module outside stdlib/httpx/cattrs/the package"))
     for kind, where, msg in probs:
         fid = None
-        # (F53 enum defaults, F31 zero operations, F3 non-error statuses, F35 streamed response next to another 2xx are repaired: no
-        #  attribution - a branch for a repaired finding would only shadow the attribution of a listed one, as F53's did for F35)
+        # (F53 enum defaults, F31 zero operations, F3 non-error statuses, F35 streamed response next to another 2xx, F23 tag spelling
+        #  variants are repaired: no attribution - a branch for a repaired finding would only shadow the attribution of a listed one)
         if False:
             pass
-        elif "duplicate argument" in msg and "mock_client" in where + msg and feats["tag_spelling_variants"]:
-            fid = "F23"
         elif kind == "import" and feats["mutual_refs"] and ("partially initialized module" in msg or "circular import" in msg
                                                                or "No module named" in msg or "cannot import name" in msg):
             fid = "F2"
         elif kind == "import" and feats.get("prop_named_like_temporal_type") and "unsupported operand type(s) for |" in msg:
             fid = "F67"
         # F4 (a parameter declared at path level and again at operation level -> duplicate argument), F5 (a property `field` shadowing
-        # dataclasses.field) and F35 (a streamed response next to another 2xx response -> 'return' with value in async generator) are repaired:
-        # `dup_params` / `shadowing_props` / `stream_with_other_2xx` stay in the features for the record, a recurrence is a violation
+        # dataclasses.field), F35 (a streamed response next to another 2xx response -> 'return' with value in async generator) and F23 (two
+        # spellings of a tag -> duplicate argument of MockAPIClient.__init__) are repaired: `dup_params` / `shadowing_props` /
+        # `stream_with_other_2xx` / `tag_spelling_variants` stay in the features for the record, a recurrence is a violation
         out.append((fid, f"{kind} {where}: {msg}", {"kind": kind, "where": where, "msg": msg, "features": feats}))
     return out
 
@@ -250,7 +249,7 @@ def make_cases(ctx, r) -> list[dict]:
     return cases
 
 
-FORMER = ("F4", "F5", "F35")       # repaired findings whose witnesses stay in the case list
+FORMER = ("F4", "F5", "F35", "F23")       # repaired findings whose witnesses stay in the case list
 
 
 def inject_param_override(doc: dict, rr) -> bool:
